@@ -27,7 +27,8 @@ for d in sorted(glob.glob("/verif/seeded/*/")):
     if "initially missed" in str(m.get("caught_by", "")) + str(m.get("note", "")) or "missed by the first version" in str(m.get("note", "")):
         missed.append(n)
     out.append("| %s | %s | %s | %s | %s |" % (n, cell(files), cell(m.get("what_it_needs_to_manifest", ""))[:420],
-                                               cell(m.get("caught_by", "")), cell(m.get("note", ""))))
+                                               cell(m.get("caught_by", "")),
+                                               cell(m.get("note", "")) + (" RETIRED: " + cell(m["retired"]) if m.get("retired") else "")))
 out.append("\nMissed at first and caught after the check was strengthened (%d of %d): %s." % (
     len(missed), len(glob.glob("/verif/seeded/*/")), ", ".join(missed)))
 out.append("\nOne produced change is not kept (C04, batch 3: `unbroadcast` reducing all surplus axes in one `sum` call, wrong only "
